@@ -3,7 +3,8 @@
    specification: IW.JSON.PatchSpec (rfc6902 over pure values; `strict` = the RFC, `lenient` = the library's reading). *)
 Require Import ZArith List Bool.
 Require Import IW.Lib.CInt IW.UT.Conv IW.JSON.Val IW.JSON.Patch IW.JSON.PatchSpec IW.JSON.Patch_proofs IW.Gen.Facts.
-Require Import IW.JSON.Binn IW.JSON.Merge IW.JSON.WriteBack IW.JSON.WriteBack_proofs IW.JSON.PatchExt_proofs IW.JSON.PatchDecode_proofs.
+Require Import IW.JSON.Binn IW.JSON.Merge IW.JSON.WriteBack IW.JSON.WriteBack_proofs IW.JSON.PatchExt_proofs IW.JSON.PatchDecode_proofs
+               IW.JSON.PatchId IW.JSON.PatchId_proofs IW.JSON.PatchIdTree_proofs.
 Import ListNotations. Local Open Scope Z_scope.
 
 (* trees built by jbn_from_json / _jbl_node_from_binn (`of_val`) satisfy "cached index = position, cached key length =
@@ -586,3 +587,59 @@ Proof.
   - repeat split; vm_compute; reflexivity.
 Qed.
 Print Assumptions C15_array_index_leniency_refuted.
+
+(* ================================================================== node identity (IW.JSON.PatchId): which node is linked where.
+   Every node carries an id (its address) and the id its `parent` field holds.  `add` links the operand node OF THE PATCH DOCUMENT
+   itself (so the result shares nodes with the patch document - that is how the library works, nothing is freed in pool mode),
+   `copy` links fresh nodes, `move` re-links the detached node, _jbl_copy_node_data makes a node take over another node's children.
+   Tied to the library on every run by the `idpatch` queries (own= / dup= / par= of harness and extracted model agree). *)
+Theorem C15_identity_model_refines : forall rp fo l next t,
+  (fst (snd (i_apply_ops rp fo next t l)), iforget (snd (snd (i_apply_ops rp fo next t l)))) =
+  apply_ops fo (iforget t) (map pop_of l).
+Proof. exact i_apply_ops_refines. Qed.
+Print Assumptions C15_identity_model_refines.
+
+(* `parent` pointers: with the library's _jbl_copy_node_data (reparent = false; probed: JP_REPARENT = 0) "every child's parent is the
+   node that lists it" is FALSE after an `add` over an existing member holding a container - the children point at the operand node
+   of the patch document (replayed: idpatch ... par=bad; with iwjsreg_merge + iwjsreg_replace: heap-use-after-free);
+   with the repaired copy (reparent = true, fixes/jpatch-parent-pointers.diff) the same patch leaves them consistent. *)
+Theorem C15_parent_pointers_refuted : exists fo t o next,
+  i_parents_ok t = true /\ (forall v, ip_val o = Some v -> i_parents_ok v = true) /\
+  fst (snd (i_apply_op false fo next t o)) = RcOk /\ i_parents_ok (snd (snd (i_apply_op false fo next t o))) = false /\
+  i_parents_ok (snd (snd (i_apply_op true fo next t o))) = true.
+Proof.
+  exists ex_fo, (snd (i_of_node 0 0 (of_val 0 [] (JObj [([97], JObj [([120], JI64 1)])])))),
+         {| ip_op := OAdd; ip_path := [[97]]; ip_from := None;
+            ip_val := Some (snd (i_of_node 1000 0 (of_val 5 [118;97;108;117;101] (JObj [([107], JArr [JI64 7])])))) |}, 2000.
+  split; [reflexivity|]. split; [intros v H; inversion H; reflexivity|]. repeat split; reflexivity.
+Qed.
+Print Assumptions C15_parent_pointers_refuted.
+
+(* "the tree is a tree": for every document whose nodes are distinct and every list of operations OF ANY KIND whose operand values
+   are distinct nodes (distinct from one another and from the document's: every parsed patch document), after the call -
+   successful or not - no node is listed twice, and every node of the result is a node of the document, a node of an operand
+   value, or a node allocated by the call (jbn_clone for copy, created parents for add_create).  Nested swaps included. *)
+Theorem C15_tree_is_a_tree : forall rp fo l next t,
+  NoDup (i_ids t ++ flat_map vids l) -> (forall x, In x (i_ids t ++ flat_map vids l) -> x < next) ->
+  NoDup (i_ids (snd (snd (i_apply_ops rp fo next t l)))) /\
+  (forall x, In x (i_ids (snd (snd (i_apply_ops rp fo next t l)))) ->
+             In x (i_ids t) \/ In x (flat_map vids l) \/ next <= x < fst (i_apply_ops rp fo next t l)).
+Proof. exact tree_is_a_tree. Qed.
+Print Assumptions C15_tree_is_a_tree.
+
+(* {"a":{"x":[1,2]},"b":{"y":{"z":1}}} with copy /a -> /c, move /b/y -> /a/x/0, add_create /q/r/s [1], swap /a <-> /a/x:
+   the hypotheses hold for the numbered document and operand, the result lists 15 distinct nodes *)
+Example C15_ex_tree_is_a_tree :
+  let t := snd (i_of_node 0 0 (of_val 0 [] (JObj [([97], JObj [([120], JArr [JI64 1; JI64 2])]); ([98], JObj [([121], JObj [([122], JI64 1)])])]))) in
+  let v := snd (i_of_node 1000 0 (ex_vnode (JArr [JI64 1]))) in
+  let l := [{| ip_op := OCopy; ip_path := [[99]]; ip_from := Some [[97]]; ip_val := None |};
+            {| ip_op := OMove; ip_path := [[97]; [120]; [48]]; ip_from := Some [[98]; [121]]; ip_val := None |};
+            {| ip_op := OAddCreate; ip_path := [[113]; [114]; [115]]; ip_from := None; ip_val := Some v |};
+            {| ip_op := OSwap; ip_path := [[97]; [120]]; ip_from := Some [[97]]; ip_val := None |}] in
+  NoDup (i_ids t ++ flat_map vids l) /\ (forall x, In x (i_ids t ++ flat_map vids l) -> x < 2000) /\
+  fst (snd (i_apply_ops false ex_fo 2000 t l)) = RcOk /\ length (i_ids (snd (snd (i_apply_ops false ex_fo 2000 t l)))) = 15%nat.
+Proof.
+  cbv zeta. split; [|split; [|split; vm_compute; reflexivity]].
+  - vm_compute. repeat (constructor; [cbn [In]; intuition discriminate|]). constructor.
+  - vm_compute. intros x H. repeat (destruct H as [H|H]; [subst x; reflexivity|]). contradiction.
+Qed.
